@@ -484,6 +484,7 @@ func (r *TableHTMLRenderer) renderTableCell(
 	}
 	if entering {
 		_, _ = fmt.Fprintf(w, "<%s", tag)
+		var attrNode gast.Node = n
 		if n.Alignment != ast.AlignNone {
 			amethod := r.TableConfig.TableCellAlignMethod
 			if amethod == TableCellAlignDefault {
@@ -507,14 +508,20 @@ func (r *TableHTMLRenderer) renderTableCell(
 				}
 				style := fmt.Sprintf("text-align:%s", n.Alignment.String())
 				cob.AppendString(style)
-				n.SetAttributeString("style", cob.Bytes())
+				// render the merged style without modifying the node
+				tmp := ast.NewTableCell()
+				for _, attr := range n.Attributes() {
+					tmp.SetAttribute(attr.Name, attr.Value)
+				}
+				tmp.SetAttributeString("style", cob.Bytes())
+				attrNode = tmp
 			}
 		}
-		if n.Attributes() != nil {
+		if attrNode.Attributes() != nil {
 			if tag == "td" {
-				html.RenderAttributes(w, n, TableTdCellAttributeFilter) // <td>
+				html.RenderAttributes(w, attrNode, TableTdCellAttributeFilter) // <td>
 			} else {
-				html.RenderAttributes(w, n, TableThCellAttributeFilter) // <th>
+				html.RenderAttributes(w, attrNode, TableThCellAttributeFilter) // <th>
 			}
 		}
 		_ = w.WriteByte('>')
